@@ -124,5 +124,13 @@ def fill(claim, na):
         TB + "Finiteness of the numbers is observed, not proved (massive N3LO grids give NaN, zeroed by the sanitiser: known finding F20 under C03).",
         "DESIGN.md 6/C16",
     )
-    for p in ["C01", "C04", "C09", "C10", "C19"]:
+    claim(
+        "C10",
+        "proof",
+        "translator (symbolic, linear execution of the TMC classes of esf/tmc.py -> Lean KExpr coefficient table, regenerated and validated against the real classes each run) + Lean 4 theorems over the reals (Mathlib interval integrals, HasDerivAt, continuity) + operator-level comparison of real runs with the published formulas",
+        "For arbitrary uncorrected structure functions and all x, Q2, M: each of the twelve (F2, FL, xF3, 2x g1) x (APFEL, approximate, exact) formulas generated from the source equals the published one (Schienbein et al. eqs 21-23, 29-31; Bluemlein-Tkabladze / Accardi-Melnitchouk for g1), with the integrals stated as integrals: du/u ker(xi/u) is the published integrand for h2, g2, h3, k2; F_L = r^2 F_2 - 2x F_1; the approximate FL and g1 formulas are the exact ones with the integrand frozen at xi (closed-form integrals proved); at M=0 every formula is the identity and every prefactor is continuous there; a shifted point below the grid is rejected on every path; skipping basis functions below xi is sound; the weighted node sum is the integral of the interpolant. Real code: coefficients x real kernel weights = what the real classes assemble (marker structure functions); real kernel integration = independent quadrature of the published integrands on the real eko basis; TMC runs = published formula on TMC=0 operators (operator identity, all modes/kinds, NC/CC/EM, massive/massless, sequences of runs on different bases); M->0 sequence; rejection.",
+        TB + "The loop of _convolve_FX is modelled by hand (tied by correspondence); scipy quadrature and the continuity of the structure functions themselves are observed, not proved. Three defects were repaired (h3 kernel, g1 integrating F2, g1 normalisation 2 xi instead of 2x).",
+        "DESIGN.md 6/C10",
+    )
+    for p in ["C01", "C04", "C09", "C19"]:
         na(p, "check not yet built in this round (design in DESIGN.md section 6); will be claimed once its Lean model, theorems and correspondence exist")
